@@ -30,6 +30,7 @@ FORMULAS = {
     7: "y ~ C(k) + T(k, 2):x + (1 | k)",   # numeric levels: stored as int64 in frame 1 and as float64 in frame 2 (labels 2 / 2.0)
     8: "y ~ binary(u01) + C(f, ENC) + (1 | g)",   # a remembered success level that is 0; an encoding OBJECT from the caller's namespace
     9: "y ~ C(g, ENC) + B(u01, 0):x",             # the same encoding object on a factor with other levels
+    10: "y ~ bs(x, knots=KNA, degree=2) + (1 | h)",  # knots handed over as the caller's own (unsorted) numpy array
 }
 from fv.rows import UserStd  # noqa: E402  pylint: disable=wrong-import-position
 
@@ -39,7 +40,7 @@ def _enc():
     return Sum()
 
 
-NS = {"KL": [1, 2, 3, 10, 20], "ustd": UserStd}   # + "ENC": a Sum() object, created at the first build (importing this module must not import formulae)
+NS = {"KL": [1, 2, 3, 10, 20], "ustd": UserStd, "KNA": np.array([2.5, -0.5, 1.0])}   # + "ENC": a Sum() object, created at the first build (importing this module must not import formulae)
 _FRAMES = {}
 
 
@@ -295,7 +296,7 @@ def random_history(rng, maxlen):
         r = rng.random()
         if nd == 0 or r < 0.2:
             if nd < 4:
-                ops.append({"op": "build", "f": rng.randint(1, 9), "D": rng.randint(1, 2)})
+                ops.append({"op": "build", "f": rng.randint(1, 10), "D": rng.randint(1, 2)})
                 nd += 1
                 continue
         if r < 0.7:
